@@ -241,6 +241,40 @@ def run_unit(spec):
     return out
 
 
+def plan_construction_frames(rep, pid):
+    """the outer bodies of entity_writer / entity_reader (plan construction, run once per class behind
+    functools.cache) executed by the interpreter on concrete arguments: they must not store into, or call a
+    mutating method on, any module-level or captured container"""
+    from checks import l2
+    from kio.serial import entity_reader, entity_writer
+    from kvc.core import Ctx, PyRaise, Undecided
+    from kvc.interp import FrameViolation, Interp
+    from kvc.models import base_models
+    n = 0
+    ents = l2.all_entities()
+    for fac in (entity_writer, entity_reader):
+        raw = getattr(fac, "__wrapped__", fac)
+        bad = []
+        und = []
+        for T in ents[:: 1]:
+            ctx = Ctx()
+            it = Interp(ctx, models=base_models())
+            try:
+                it.call_function(raw, [T, False])
+            except FrameViolation as ex:
+                bad.append((T, str(ex)))
+            except (PyRaise, Undecided) as ex:
+                und.append((T, str(ex)))
+            n += 1
+            if len(bad) > 3:
+                break
+        rep.add_ground(f"{pid}/plan-construction/{fac.__name__}/no-shared-state-touched", not bad,
+                       f"{len(bad)} classes; first: {bad[0][1] if bad else ''}")
+        if und:
+            rep.undecided.append(f"{pid}/plan-construction/{fac.__name__}: {und[0][1]} ({len(und)} classes)")
+    return n
+
+
 def plan_equivalence(rep, pid):
     """caching: entity_reader/entity_writer build the same plan every time they run (cache
     bypassed through __wrapped__), so whichever completed call the cache keeps is equivalent"""
